@@ -603,6 +603,10 @@ REVIEWED_GLOBALS = {
     ("models/base.py", "", "keywords_set"): "constant", ("models/base.py", "", "builtins_set"): "constant",
     ("models/base.py", "", "other_common_names_set"): "constant", ("models/base.py", "", "blacklist_words"): "constant",
     ("models/base.py", "", "imported_names_set"): "constant",
+    # tuples of immutable datetime defaults (read by index only) and the tuple of default comparators (never mutated)
+    ("dynamic_typing/string_datetime.py", "", "_check_values_date"): "constant",
+    ("dynamic_typing/string_datetime.py", "", "_check_values_time"): "constant",
+    ("registry.py", ".ModelRegistry", "DEFAULT_MODELS_CMP"): "constant",
     ("models/base.py", "", "ones"): "constant",
     ("models/base.py", ".GenericModelCodeGenerator", "BODY"): "constant", ("models/base.py", ".GenericModelCodeGenerator", "STR_CONVERT_DECORATOR"): "constant",
     ("models/base.py", ".GenericModelCodeGenerator", "FIELD"): "constant", ("models/base.py", ".GenericModelCodeGenerator", "default_types_style"): "constant",
@@ -634,7 +638,9 @@ def gen_globals():
                         if v is None:
                             continue
                         t = n.targets[0] if isinstance(n, ast.Assign) else n.target
-                        if isinstance(v, (ast.Dict, ast.List, ast.Set, ast.DictComp, ast.ListComp, ast.SetComp, ast.Call)):
+                        # anything that holds a mutable object somewhere inside (a tuple of lists, a dict in a tuple, a call)
+                        mut = (ast.Dict, ast.List, ast.Set, ast.DictComp, ast.ListComp, ast.SetComp, ast.Call)
+                        if isinstance(v, mut) or (isinstance(v, ast.Tuple) and any(isinstance(x, mut) for x in ast.walk(v))):
                             found[(rel, scope, ast.unparse(t))] = True
                     elif isinstance(n, ast.ClassDef):
                         scan(n.body, scope + "." + n.name)
